@@ -125,7 +125,17 @@ Definition nabs (x : num) : num :=
   | Wrapped i v => Wrapped i (if fltb v (FFin 0) then fneg v else v)
   | Raise e => Raise e
   end.
-Fixpoint npow (x : num) (n : nat) : num := match n with O => nlit 1 | S O => x | S k => xmul x (npow x k) end.
+(* x ** n for floats raises OverflowError when the result is finite in exact arithmetic but exceeds the largest double
+   (unlike x * x, which returns inf); ints are unbounded *)
+Definition fmax : Q := inject_Z (2 ^ 1024).
+Definition pow_guard (r : xv) : xv :=
+  match r with
+  | Plain false (FFin q) | Wrapped false (FFin q) =>
+      if Qle_bool q fmax && Qle_bool (- fmax) q then r else Raise OverflowError
+  | _ => r
+  end.
+Fixpoint npow (x : num) (n : nat) : num :=
+  match n with O => nlit 1 | S O => x | S k => pow_guard (xmul x (npow x k)) end.
 (* math.sqrt: ValueError below zero (and at -inf); the result is a plain float.  Finite stand-in: identity (keeps the sign class) *)
 Definition nsqrt (x : num) : num :=
   match x with
